@@ -94,7 +94,9 @@ def aligned(d, q, sow):
 
 
 # ---- cases ---------------------------------------------------------------------------------------
-def dur_text(rng, q, n):
+def dur_text(rng, q, n, form=None):
+    if form is not None:
+        return form
     forms = ['every %d %s' % (n, QNAME[q])]
     if n == 1:
         forms.append('every ' + QSING[q])
@@ -110,7 +112,7 @@ def bounds_format(case):
 
 
 def expr_text(rng, case):
-    s = dur_text(rng, case['q'], case['n'])
+    s = dur_text(rng, case['q'], case['n'], case.get('form'))
     fmt = case.get('bfmt')
     if fmt is None:
         # the built-in readers; with --input-date-format the separators are no longer normalised, both still read
@@ -130,6 +132,10 @@ def set_format(rng, case, fmt):
     and then - in the built-in %Y/%m/%d, which the readers still accept"""
     case['fmt'] = fmt
     case['bfmt'] = fmt if (fmt is not None and rng.random() < 0.85) else None
+    if case['bfmt'] and '%y' in case['bfmt']:
+        # a two-digit year names 1969-2068 (strptime %y); a bound outside that window cannot be written with it
+        if any(b is not None and not (1969 <= nd(b).year <= 2068) for b in (case['from'], case['to'])):
+            case['bfmt'] = None
     case['expr'] = expr_text(rng, case)
 
 
@@ -463,6 +469,13 @@ def century_fix(samples):
 
 
 # ---- the run -------------------------------------------------------------------------------------
+def form_of(case):
+    w = case['expr'].split()[0].lower()
+    if w == 'every':
+        return 'every-N-units' if case['expr'].split()[1].isdigit() else 'every-unit'
+    return w
+
+
 def canon_rows(rows, impl):
     if impl:
         return [(s, e, a, 0 if acct == '<None>' else 1) for s, e, a, acct in rows]
@@ -499,6 +512,7 @@ def check_reg(res, case, journal, impl, plain, model):
     res.evaluations += 1
     res.traces += 1
     res.count('reg:q=%s' % case['q'])
+    res.count('reg:form=%s' % form_of(case))
     res.count('reg:n=%d' % case['n'])
     res.count('reg:bounds=%s%s' % ('F' if case['from'] is not None else '-', 'T' if case['to'] is not None else '-'))
     res.count('reg:sow=%d' % case['sow'])
@@ -575,6 +589,7 @@ def check_period(res, case, impl, model_line):
     res.evaluations += 1
     res.traces += 1
     res.count('period:q=%s' % case['q'])
+    res.count('period:form=%s' % form_of(case))
     full = dict(expr=case['expr'], q=case['q'], n=case['n'], fmt=case.get('fmt'), bfmt=case.get('bfmt'), **{'from': case['from'], 'to': case['to']})
     res.count('period:input-date-format=%s' % (case.get('fmt') or 'none'))
     body = model_line.split(' ', 1)[1]
@@ -654,8 +669,28 @@ def grid_cases(rng):
     return out
 
 
+def named_word_cases(rng):
+    """every named duration word, spelled in lower, upper and mixed case, without bounds, with a from and with
+    both bounds - in every run, so that each keyword of the lexer is exercised whatever the seed"""
+    out = []
+    for word, (q, n) in NAMED.items():
+        for k, spell in enumerate([word, word.upper(), word.capitalize()]):
+            for bounds in range(3):
+                c = gen_case(rng, (q, n))
+                if bounds == 0:
+                    c['from'] = c['to'] = None
+                elif bounds == 1:
+                    c['to'] = None
+                    if c['from'] is None:
+                        c['from'] = dn(boundary_date(rng, 2019, 2023))
+                c['form'] = spell
+                c['expr'] = expr_text(rng, c)
+                out.append(c)
+    return out
+
+
 def cases_for(ctx, rng, n_reg, n_period, exhaustive):
-    regs, periods = [], []
+    regs, periods = named_word_cases(rng), named_word_cases(rng)
     combos = [(q, n) for q in 'dwmqy' for n in range(1, 13)]
     for i in range(n_period):
         ex = combos[i % len(combos)] if (exhaustive or i < len(combos)) else None
